@@ -15,11 +15,11 @@ from ..gen import spectra as GS
 from ..oracle import npyfmt, spectrum as O
 
 LEVEL = "exploration"
-NEEDS = ["harness", "cli"]
+NEEDS = ["harness", "cli", "shim"]
 RULE = ("writer: shapes with 1-24 axes (mostly length 1, one or two longer with 1-5 digits) chosen so that len(header dict) covers all 64 residues "
         "mod 64, x value kinds incl. nan/inf/-0/subnormals, at L and via `view -O npy` (stdout and -o); reader: 10 dtypes x {<, >, |} x versions "
         "{1.0, 2.0, 3.0} written by numpy with boundary values (int min/max, f4 subnormal/max/inf/nan, u8 2^63..2^64-1), x 7 header spellings "
-        "(quotes, spacing, key order, trailing commas) and unaligned / over-padded headers (each first confirmed loadable by numpy); rejects: Fortran order, dtypes c16 c8 ? f2 S5 U3 M8 m8 O V4. Non-trivial: every case; "
+        "(quotes, spacing, key order, trailing commas) and unaligned / over-padded headers (each first confirmed loadable by numpy); input on stdin in pieces that are no multiple of the element size; rejects: Fortran order (2-D, 3-D, with singleton axes, and the bare flag on 1-D / degenerate shapes), dtypes c16 c8 ? f2 S5 U3 M8 m8 O V4. Non-trivial: every case; "
         "distinct = digest(file bytes).")
 ASSUMPTIONS = ["numpy %s is the reference reader/writer" % np.__version__, "NEP-1 rules re-implemented from the spec text in vf/oracle/npyfmt.py"]
 FLOORS = {"quick": {"evaluations": 600, "distinct_nontrivial": 500, "counts": {"writer_files": 128, "reader_files": 300, "reject_files": 40}},
@@ -204,6 +204,16 @@ def check_reader(S, p):
     f2d = np.arange(6, dtype="<f8").reshape(2, 3)
     rej.append(("fortran-2d", numpy_file(np.asfortranarray(f2d), (1, 0))))
     rej.append(("fortran-3d-v2", numpy_file(np.asfortranarray(np.arange(24, dtype="<i4").reshape(2, 3, 4)), (2, 0))))
+    # Fortran order with singleton axes (numpy really writes fortran_order True for these) and the flag on shapes where the two
+    # orders coincide: a file that SAYS Fortran order is rejected, whatever its shape
+    for shp in ((2, 1, 3), (1, 2, 3), (3, 5, 1), (2, 2, 1, 2), (1, 1, 4, 2), (4, 1, 1, 3)):
+        a = np.asfortranarray(np.arange(int(np.prod(shp)), dtype="<f8").reshape(shp))
+        f = numpy_file(a, (1, 0))
+        if b"'fortran_order': True" in f[:200]:
+            rej.append(("fortran-singleton %s" % "x".join(map(str, shp)), f))
+    for shp in ((5,), (1, 5), (5, 1), (1, 1, 1), (3, 3)):
+        pay = np.arange(int(np.prod(shp)), dtype="<f8").tobytes()
+        rej.append(("fortran-flag %s" % "x".join(map(str, shp)), npyfmt.build("{'descr': '<f8', 'fortran_order': True, 'shape': (%s,), }" % ", ".join(map(str, shp)), pay)))
     for dt in ("<c16", "<c8", "|b1", "<f2", "|S5", "<U3", "<M8[s]", "<m8[ns]", "|V4"):
         try:
             a = np.zeros(4, dtype=dt)
@@ -227,6 +237,26 @@ def check_reader(S, p):
         S.case(key=digest(d), nontrivial=True)
 
 
+def check_reader_pieces(S, p):
+    """npy on stdin arriving in pieces that are no multiple of the element size (the program drains the pipe between them):
+    the shim makes every read() return 1000 / 13 / 4099 bytes."""
+    from .c18 import shim_run
+    rng = rng_for(S.seed, "c15", p["name"], "pieces")
+    dt, o = rng.choice([("f8", "<"), ("i4", ">"), ("u2", "<"), ("f4", "<"), ("i8", ">")])
+    n = rng.choice([1500, 3000, 5000])
+    arr = boundary_values(dt, rng, n)[:n].astype(np.dtype(o + dt))
+    data = numpy_file(arr, rng.choice([(1, 0), (2, 0)]))
+    base = cli.sfs(["view", "-O", "npy"], stdin=data)
+    for piece in (1000, 13, 4099, 7):
+        r, log = shim_run(["view", "-O", "npy"], stdin_bytes=data, env_extra={"FAILIO_READ_FD": "0", "FAILIO_READ_CHUNKS": str(piece), "FAILIO_READ_REST": str(piece)})
+        S.count("reader_files")
+        S.count("reader_stdin_pieces")
+        if base.rc != 0 or r.rc != base.rc or r.out != base.out:
+            S.viol("C15:reader-pieces", "[C view -O npy, %d %s%s values on stdin in pieces of %d bytes] rc %s stderr %r (all at once: rc %s)" % (
+                n, o, dt, piece, r.rc, r.err[:200], base.rc), {"level": "S", "input_b64": E.b64(data[:200000]), "piece": piece})
+        S.case(key=digest([data.hex()[:2000], piece]), nontrivial=True)
+
+
 def shard(S, p):
     if "replay" in p:
         w = p["replay"]
@@ -238,3 +268,4 @@ def shard(S, p):
         return
     check_writer(S, p)
     check_reader(S, p)
+    check_reader_pieces(S, p)
